@@ -15,6 +15,8 @@ Check ==
          IF \E n \in Names : n \notin DOMAIN Ev.schema THEN "compression-code-unknown-to-schema"
          ELSE IF \E n \in Names : Ev.schema[n] # Ev.writer[n] THEN "compression-code-means-something-else-in-schema"
          ELSE IF \E n \in DOMAIN Ev.generated : Ev.generated[n] # Ev.writer[n] THEN "generated-reader-enum-differs-from-writer"
+         \* probed: every numeric code the writer accepts (opens, writes, closes a file with) is a value of the schema's enum
+         ELSE IF \E i \in 1..Len(Ev.accepted) : Ev.accepted[i] \notin {Ev.schema[n] : n \in DOMAIN Ev.schema} THEN "writer-accepts-code-unknown-to-schema"
          ELSE "ok"
     [] Ev.t = "kaitai" ->
          LET n == Len(Ev.written) IN
